@@ -2,6 +2,7 @@ import Scion.Model.Net
 import Scion.Proofs.Net
 import Scion.Proofs.NetEdge
 import Scion.Proofs.NetMirror
+import Scion.Proofs.NetPeerEdge
 /-!
 # C03 — Reversed paths carry replies back to the source
 
@@ -97,8 +98,37 @@ theorem reverse_run_nonpeering_partial (mac : MacFn) (net : Net) (now : Nat)
     ∃ cr, send mac net now dst src (reverseCursor cf) = .delivered src tr.reverse cr :=
   reverse_run_nonpeer mac net now src dst hWF hUp hSR edges c cf tr hnp hJ hp hexp hsend
 
-/-- still open (stated by `C03_full`, tied by the engine): the way back over peering paths and
-    several border routers per AS -/
+/-- **C03 over peering paths** (up segment ending in a peer entry, peering link, down segment
+    starting with the matching peer entry; each side one or more ASes; one border router per AS).
+    The delivered packet, reversed, is exactly the packet path combination builds from the same
+    two segments used the other way round (`peering_accepted_full`: the down segment's routers leave
+    in the info field the SegID an up segment over the same entries starts with, the peering hop
+    leaves it untouched — C22), the mirrored pair of edges is again joinable
+    (`joinable_flip_peering`), so C02 for peering paths applies to the way back. -/
+theorem reverse_run_peering_partial (mac : MacFn) (net : Net) (now : Nat)
+    (hWF : WFNet net) (hUp : AllUp net) (hSR : SingleRouter net)
+    (eu ed : Edge) (src dst : Nat) (c cf : Cursor) (tr : List (Nat × Nat)) (ku kd : Nat)
+    (hup : eu.peer = some ku) (hdp : ed.peer = some kd)
+    (hJ : Joinable mac net [eu, ed] src dst) (hp : pathOf [eu, ed] = some c) (hexp : Unexpired now c)
+    (hsend : send mac net now src dst c = .delivered dst tr cf) :
+    ∃ cr, send mac net now dst src (reverseCursor cf) = .delivered src tr.reverse cr :=
+  reverse_run_peering mac net now src dst hWF hUp hSR eu ed c cf tr ku kd hup hdp hJ hp hexp hsend
+
+/-- **C03 for networks with one border router per AS**: `C03_full` with the additional hypothesis
+    `SingleRouter` — every path path combination can build (all segment combinations, shortcuts,
+    peering shortcuts). -/
+theorem C03_single_router_partial (mac : MacFn) (net : Net) (now : Nat) (edges : List Edge)
+    (src dst : Nat) (c cf : Cursor) (tr : List (Nat × Nat))
+    (hWF : WFNet net) (hUp : AllUp net) (hSR : SingleRouter net)
+    (hJ : Joinable mac net edges src dst) (hp : pathOf edges = some c) (hexp : Unexpired now c)
+    (hsend : send mac net now src dst c = .delivered dst tr cf) :
+    ∃ cr, send mac net now dst src (reverseCursor cf) = .delivered src tr.reverse cr := by
+  rcases joinable_cases mac net edges src dst hJ with hnp | ⟨e1, e2, k1, k2, rfl, h1, h2⟩
+  · exact reverse_run_nonpeering_partial mac net now hWF hUp hSR edges src dst c cf tr hnp hJ hp hexp hsend
+  · exact reverse_run_peering_partial mac net now hWF hUp hSR e1 e2 src dst c cf tr k1 k2 h1 h2 hJ hp hexp
+      hsend
+
+/-- still open (stated by `C03_full`, tied by the engine): several border routers per AS -/
 def remaining : Prop := C03_full
 
 end Scion.C03
